@@ -35,6 +35,12 @@ structure GLayer where
   H : Rat
 deriving Inhabited
 
+/-- `geom.P` -/
+structure GP where
+  X : Rat
+  Y : Rat
+deriving Inhabited
+
 /-- `xs[i]` on a slice; the translated functions only index inside the bounds they have just tested -/
 def idx {α} [Inhabited α] (xs : List α) (i : Int) : α := xs.getD i.toNat default
 
